@@ -46,7 +46,7 @@ func transcoderOptions(unknown http.Handler) []vanguard.TranscoderOption {
 		vanguard.WithCompression("zz",
 			func() connect.Compressor { return &zzCompressor{} },
 			func() connect.Decompressor { return &zzDecompressor{} }),
-		vanguard.WithCodec(func(vanguard.TypeResolver) vanguard.Codec { return textCodec{} }),
+		vanguard.WithCodec(func(res vanguard.TypeResolver) vanguard.Codec { return textCodec{res: res} }),
 	}
 	if unknown != nil {
 		opts = append(opts, vanguard.WithUnknownHandler(unknown))
@@ -1025,6 +1025,10 @@ func (rn *run) serveBackend(kind string, w http.ResponseWriter, req *http.Reques
 	// strict syntactic checks of the head (C02); each names the rule it comes from
 	d.Bad = append(d.Bad, strictHead(form, req)...)
 
+	if hd.WriteFirst {
+		// the whole scripted reply first, the request afterwards
+		rn.respond(w, form, codec, 0)
+	}
 	var raw []byte
 	var rerr error
 	if !hd.NoRead {
@@ -1143,7 +1147,9 @@ func (rn *run) serveBackend(kind string, w http.ResponseWriter, req *http.Reques
 		// connect-go, grpc-go and reverse proxies close the request body when they are done with it
 		_ = req.Body.Close()
 	}
-	rn.respond(w, form, codec, herr)
+	if !hd.WriteFirst {
+		rn.respond(w, form, codec, herr)
+	}
 	if hd.NestBig && rn.sh != nil {
 		nested := scenario{SID: rn.scn.SID + "/nested", Fam: rn.scn.Fam, Cfg: rn.scn.Cfg,
 			Cl: clientSpec{Form: "connect_post", Method: "Post", Codec: "json", Major: 1, Frames: []frameSpec{{M: 1}}},
